@@ -88,3 +88,8 @@ Definition text_ok (enc : encoding) (t : str) : Prop :=
   match enc with Utf8 => valid_text t = true | Latin => forallb is_octet t = true end.
 
 Definition rooted (t : str) : Prop := t = [] \/ exists t', t = 47 :: t'.
+
+(* the numeric value of a port spelled with decimal digits ("080" is port 80) *)
+Definition port_value (p : str) : N := fold_left (fun acc c => acc * 10 + (c - 48)) p 0.
+(* RFC 3986 query characters (pchar / "/" / "?") and "%": what a percent-encoded ASCII query consists of *)
+Definition rfc_query_char (c : N) : bool := rfc_path_char c || (c =? 63) || (c =? 37).
